@@ -378,6 +378,13 @@ func (c *ctxT) stanzaCase(x stz, payload []xml.Token, rnd *common.Rand) {
 	if len(et) > 2 {
 		c.uerrLine(et[1:])
 		c.wireCase(x, e, et, []string{r.Prop + " " + eline})
+		// an error reply usually echoes the payload of the request in front of the error: white
+		// space and the (non-error) payload elements are skipped, the error is still found
+		if pl := nonEmptyChars(payload); len(pl) > 0 && !hasErrorElement(pl) {
+			echo := append([]xml.Token{et[0], xml.CharData("\n ")}, pl...)
+			echo = append(echo, et[1:]...)
+			c.wireCase(x, e, echo, []string{r.Prop + " " + wline, r.Prop + " " + eline})
+		}
 	}
 	// --- the two encodings: well-formed, decode to the same value, equal to the original
 	b1, err1 := xml.Marshal(v)
@@ -420,6 +427,27 @@ func (c *ctxT) stanzaCase(x stz, payload []xml.Token, rnd *common.Rand) {
 			c.fail("roundtrip", fmt.Sprintf("stanza/%s/%s/path%d", kind, f, i+1), lines, fmt.Sprintf("field %s: decoded %+v, original %+v (%q)", f, u, x, [][]byte{b1, b2}[i]))
 		}
 	}
+}
+
+// nonEmptyChars drops empty character data (the printer writes nothing for it).
+func nonEmptyChars(ts []xml.Token) []xml.Token {
+	var out []xml.Token
+	for _, t := range ts {
+		if cd, ok := t.(xml.CharData); ok && len(cd) == 0 {
+			continue
+		}
+		out = append(out, t)
+	}
+	return out
+}
+
+func hasErrorElement(ts []xml.Token) bool {
+	for _, t := range ts {
+		if s, ok := t.(xml.StartElement); ok && s.Name.Local == "error" {
+			return true
+		}
+	}
+	return false
 }
 
 // wireTrip prints the tokens with a plain encoder and parses the bytes again; namespace
